@@ -25,16 +25,14 @@ THEOREMS = [N + t for t in [
     # (iv) refinement, union, segments
     "refine_child_normal", "refine_children_vertices", "refine_children_nested", "refine_domain_indices",
     "bary_child_normal", "bary_children_vertices", "bary_domain_indices",
-    "union_swapped_flips_normal", "union_elements", "segments_preserve",
+    "union_swapped_flips_normal", "union_elements", "normalize_array_order_preserving", "normalize_array_range",
+    "union_domain_blocks_separated", "segments_preserve",
     # (v) geometry
     "lagrange_identity", "integration_element_sq_nonneg", "normal_unit_right_handed", "normal_orthogonal",
     "jac_inv_trans_left_inverse", "jac_inv_trans_in_tangent_plane", "centroid_def", "diameter_is_circumdiameter",
     "volume_translation_invariant",
 ]]
 PARTIAL = {}
-NOT_PROVED = ("union: the domain-index bookkeeping (normalize_array is an order-preserving relabelling onto 0..N-1, blocks of "
-              "different grids get disjoint ranges) is modelled (Topo.normalizeArray / unionDomains, compared exactly with "
-              "the implementation) and checked by the oracle, but not a theorem")
 TRUSTED = [
     "Tie A translator props/c11_gen.py (ast extraction of _EDGE_LOCAL, the refine child triples, the 18 barycentric "
     "assignments, the union swap permutation)",
@@ -90,7 +88,7 @@ def _well_shaped(V, E):
         nn, a, b = _exact_normal_sq(V, t)
         aa = sum(x * x for x in a)
         bb = sum(x * x for x in b)
-        if nn * 10**4 < aa * bb:
+        if nn == 0 or nn * 10**4 < aa * bb:
             return False
     return True
 
@@ -993,5 +991,5 @@ LEVEL_TEXT = ("Lean 4 theorems for ALL grids (any number of vertices/elements, b
               "elements; Lagrange identity, J^T jit = I, unit right-handed normal.  The hand model is compared exactly with "
               "bempp_cl.api.Grid on named meshes, random soups and all sub-complexes of small meshes.")
 LEVEL_NOTE = ("model-level proof tied by differential comparison; square roots / IEEE rounding not modelled; union's cross-grid "
-              "domain-index disjointness is oracle-only; index-degenerate elements are rejected by Grid (assumption).")
+              "domain indices are theorems about the model's normalize_array; index-degenerate elements are rejected by Grid (assumption).")
 TECHNIQUE = "Lean 4 proof (induction over the element loop, grind/ring) + ast constant extraction + differential correspondence"
